@@ -89,7 +89,9 @@ def expected_lists(sc, obs_ops):
             if k == "randomize":
                 if res["outcome"] != "ok":
                     # a failed call may already have written the rand sets solved before the failing one
-                    if f.get("rand") and len(v["iter"]) == len(exp[name]):
+                    if isinstance(v["iter"], str):
+                        pass
+                    elif f.get("rand") and len(v["iter"]) == len(exp[name]):
                         exp[name] = list(v["iter"])
                     elif f.get("randsz"):
                         exp[name] = list(v["iter"])
@@ -97,7 +99,7 @@ def expected_lists(sc, obs_ops):
                 if not f.get("randsz") and v["len"] != len(exp[name]):
                     problems.append((oi, "fixed-size list %s changed its length over a call: %d -> %d" % (name, len(exp[name]), v["len"])))
                 exp[name] = list(v["iter"]) if f.get("rand") or f.get("randsz") else exp[name]
-            if not (v["len"] == v["size"] == len(v["iter"]) and v["index"] == v["iter"]):
+            if isinstance(v["iter"], str) or isinstance(v["index"], str) or not (v["len"] == v["size"] == len(v["iter"]) and v["index"] == v["iter"]):
                 problems.append((oi, "list %s: len() %s, size %s, iteration %s, indexing %s disagree" % (name, v["len"], v["size"], v["iter"], v["index"])))
             elif v["iter"] != exp[name]:
                 problems.append((oi, "list %s exposes %s after %s, expected %s" % (name, v["iter"], k, exp[name])))
@@ -110,7 +112,7 @@ def run(ctx):
     core.check_prop_file(ctx, "Prop_C04.v")
     known = {f["sig"]: f for f in core.known_for("C04")}
     rnd = random.Random("C04-%d" % ctx.seed)
-    n = 110 if ctx.quick() else 3000
+    n = 180 if ctx.quick() else 3000
     scs = [listgen.ListGen(random.Random(rnd.random()), randsz=(i % 4 == 3)).scenario() for i in range(n)]
     stats = {"evaluations": 0, "known_region": 0, "outcomes": {}}
 
